@@ -1,0 +1,26 @@
+//go:build verif
+
+// Contracts (machine-checked specifications) for package registration, read
+// by the verifier under /verif. Comments only; compiled only with -tags verif.
+
+package registration
+
+// ---------------------------------------------------------------- request validation (C03)
+//
+// validReq(i, req, nb, na, t): the bundle of req decodes to i, carries the
+// required fields with supported key types, is signed by the Ed25519 key it
+// names, and instant t lies in its validity window widened by the skews.
+
+//@ pred validReq(i, req, nbSkew, naSkew, t) := decodedFrom(i, req.Bundle)
+//@   | && len(i.CertificatePublicKeyPkix) != 0 && i.CertificatePublicKeyType == KEYTYPE_ED25519 && len(i.Nonce) != 0
+//@   | && len(i.EncryptionPublicKeyBytes) != 0 && i.EncryptionPublicKeyType == KEYTYPE_X25519
+//@   | && tsTime(i.NotBefore) + nbSkew <= t && t <= tsTime(i.NotAfter) + naSkew
+//@   | && len(req.Bundle) != 0 && len(req.BundleSignature) != 0
+//@   | && okPk(i.CertificatePublicKeyPkix) && isEd(i.CertificatePublicKeyPkix)
+//@   | && Verify(edpk(i.CertificatePublicKeyPkix), req.Bundle, req.BundleSignature)
+
+//@ func registration.validateFetchRequestCommon
+//@   nopanic[C03,C14]
+//@   ensures[C03 reject] err != nil ==> ret == nil
+//@   ensures[C03 valid] err == nil ==> ret != nil && fresh(ret) && req != nil && !IsNil(storage)
+//@   |   && validReq(ret, req, opts(opt).WithNotBeforeClockSkew, opts(opt).WithNotAfterClockSkew, now(0))
